@@ -48,11 +48,13 @@ def budget(tier: str) -> dict:
 
 
 def gen_case(rng: random.Random, tier: str, index: int) -> dict:
-    T = rng.choice([1, 1, 2, 2, 3, 3, 4, 5, 6])
+    T = rng.choice([1, 1, 2, 2, 3, 3, 4, 5, 6] if tier == "quick" else
+                   [1, 2, 3, 4, 5, 6, 7, 8, 10])
     # n around T and around the prefill threshold 2T+2
     anchors = [0, 1, T - 1, T, T + 1, 2 * T, 2 * T + 1, 2 * T + 2, 2 * T + 3,
                2 * T + 5]
-    n = rng.choice(anchors + [rng.randrange(0, 2 * T + 6), -1])
+    n = rng.choice(anchors + [rng.randrange(0, 2 * T + 6), -1] + (
+        [4 * T + 3, 6 * T + 1] if tier != "quick" else []))
     n = max(-1, n)
     nfail = rng.choice([0, 0, 0, 1, 1, 2])
     span = n if n >= 0 else 3 * T + 4
@@ -74,7 +76,7 @@ def gen_case(rng: random.Random, tier: str, index: int) -> dict:
         rng.choice([1, 2, 3]),
         "sched_seed": rng.getrandbits(48),
         "line": rng.random() < (0.15 if tier == "quick" else 0.3),
-        "max_steps": 20000,
+        "max_steps": 20000 if tier == "quick" else 60000,
         # a second, independent pool consumed in an interleaved fashion by the
         # same consumer (train / validation iterators of one training loop)
         "pool2": ({"T": rng.choice([1, 2, 3]), "n": rng.randrange(0, 9),
